@@ -36,8 +36,8 @@ PKGNAME = {"root": "gomatrixserverlib", "fclient": "fclient", "spec": "spec", "t
 KIT = ["vf_kit_test.go"]
 PROPS = {}
 
-def prop(pid, files, shared=None, fuzz=(), race=False, assumptions=(), timeout_quick=600, timeout_thorough=3600):
-    PROPS[pid] = dict(files=files, shared=shared or {}, fuzz=list(fuzz), race=race,
+def prop(pid, files, shared=None, fuzz=(), race=False, assumptions=(), timeout_quick=600, timeout_thorough=3600, rapidfuzz=()):
+    PROPS[pid] = dict(files=files, shared=shared or {}, fuzz=list(fuzz), race=race, rapidfuzz=list(rapidfuzz),
                       assumptions=list(assumptions), tq=timeout_quick, tt=timeout_thorough)
 
 exec(open(os.path.join(VERIF, "props.py")).read())
@@ -263,6 +263,8 @@ def check(pid, tier, seed, keep=False):
         if tier == "thorough":
             for (pkg, target, secs) in cfg["fuzz"]:
                 fuzzinfo[target] = run_fuzz(pid, tree, pkg, target, secs, merged, infra)
+            for (pkg, propname, secs) in cfg["rapidfuzz"]:
+                fuzzinfo["FuzzVF_Rapid[%s]" % propname] = run_fuzz(pid, tree, pkg, "FuzzVF_Rapid", secs, merged, infra, vf_prop=propname)
     except Infra as e:
         infra.append(str(e))
     finally:
@@ -322,7 +324,7 @@ def check(pid, tier, seed, keep=False):
         return 2
     return 0
 
-def run_fuzz(pid, tree, pkg, target, secs, merged, infra):
+def run_fuzz(pid, tree, pkg, target, secs, merged, infra, vf_prop=None):
     """Native coverage-guided campaign; the semantic oracle is inside the target."""
     pkgdir = os.path.join(tree, PKGDIR[pkg])
     corpus_src = os.path.join(VERIF, "corpus", target)
@@ -332,6 +334,11 @@ def run_fuzz(pid, tree, pkg, target, secs, merged, infra):
         shutil.copy(f, corpus_dst)
     before = set(os.listdir(corpus_dst))
     env = dict(GOENV, VF_KNOWN=KNOWN, VF_MODE="fuzz")
+    if vf_prop:
+        env["VF_PROP"] = vf_prop
+        shutil.rmtree(corpus_dst, ignore_errors=True)  # entropy corpora are per property: start empty
+        os.makedirs(corpus_dst, exist_ok=True)
+        before = set()
     cmd = ["go", "test", "-tags", "verif", "-trimpath", "-run", "^$", "-fuzz", "^%s$" % target,
            "-fuzztime", "%ds" % secs, "-test.timeout", "%ds" % (secs + 600), "./" + PKGDIR[pkg]]
     t0 = time.time()
